@@ -12,36 +12,15 @@ package mqtt
 
 //@ spec
 //@ func specVarintLen(n int) int {
-//@ 	if n <= 0x7F {
-//@ 		return 1
-//@ 	}
-//@ 	if n <= 0x3FFF {
-//@ 		return 2
-//@ 	}
-//@ 	if n <= 0x1FFFFF {
-//@ 		return 3
-//@ 	}
-//@ 	return 4
+//@ 	return ite(n <= 0x7F, 1, ite(n <= 0x3FFF, 2, ite(n <= 0x1FFFFF, 3, 4)))
 //@ }
 //@
 //@ // k-th byte of the variable-length encoding (MQTT 2.2.3: "encodedByte = X MOD 128;
 //@ // X = X DIV 128; if X > 0 then encodedByte = encodedByte OR 128"), least significant
 //@ // group first, continuation bit on every byte but the last.
 //@ func specVarintByte(n, k int) byte {
-//@ 	g := n % 128
-//@ 	if k == 1 {
-//@ 		g = (n / 128) % 128
-//@ 	}
-//@ 	if k == 2 {
-//@ 		g = (n / (128 * 128)) % 128
-//@ 	}
-//@ 	if k >= 3 {
-//@ 		g = (n / (128 * 128 * 128)) % 128
-//@ 	}
-//@ 	if k+1 < specVarintLen(n) {
-//@ 		g += 128
-//@ 	}
-//@ 	return byte(g)
+//@ 	g := ite(k <= 0, n%128, ite(k == 1, (n/128)%128, ite(k == 2, (n/(128*128))%128, (n/(128*128*128))%128)))
+//@ 	return byte(g + ite(k+1 < specVarintLen(n), 128, 0))
 //@ }
 //@
 //@ func specVarint(n int) seq {
@@ -91,36 +70,17 @@ package mqtt
 //@
 //@ // concatenation of up to three variadic byte slices
 //@ func flat3(cs [][]byte) seq {
-//@ 	s := seq0()
-//@ 	if len(cs) > 0 {
-//@ 		s = cat(s, seqOf(cs[0]))
-//@ 	}
-//@ 	if len(cs) > 1 {
-//@ 		s = cat(s, seqOf(cs[1]))
-//@ 	}
-//@ 	if len(cs) > 2 {
-//@ 		s = cat(s, seqOf(cs[2]))
-//@ 	}
-//@ 	return s
+//@ 	s1 := ite(len(cs) > 0, seqOf(cs[0]), seq0())
+//@ 	s2 := ite(len(cs) > 1, cat(s1, seqOf(cs[1])), s1)
+//@ 	return ite(len(cs) > 2, cat(s2, seqOf(cs[2])), s2)
 //@ }
 //@
 //@ func specPublishFirst(m *Message) byte {
-//@ 	f := byte(0x30)
-//@ 	if m.Retain {
-//@ 		f |= 0x01
-//@ 	}
-//@ 	f |= byte(m.QoS) << 1
-//@ 	if m.Dup {
-//@ 		f |= 0x08
-//@ 	}
-//@ 	return f
+//@ 	return byte(0x30 + ite(m.Retain, 1, 0) + int(m.QoS)*2 + ite(m.Dup, 8, 0))
 //@ }
 //@
 //@ func specPublish(m *Message) seq {
-//@ 	body := specStr(m.Topic)
-//@ 	if m.QoS != QoS0 {
-//@ 		body = cat(body, u16be(m.ID)) // packet identifier iff QoS > 0
-//@ 	}
+//@ 	body := ite(m.QoS != QoS0, cat(specStr(m.Topic), u16be(m.ID)), specStr(m.Topic)) // packet identifier iff QoS > 0
 //@ 	return specFixed(specPublishFirst(m), cat(body, seqOf(m.Payload)))
 //@ }
 //@ end
@@ -376,3 +336,41 @@ package mqtt
 //@   requires 2+slen(specUnsubPayload(p.Topics, len(p.Topics))) <= 0xFFFFFFF
 //@   loop 1 invariant seqEq(seqOf(payload), specUnsubPayload(p.Topics, rangeindex+1))
 //@   ensures[C05] seqEq(seqOf(result), specUnsubscribe(p.ID, p.Topics))
+
+// ---- CONNECT (MQTT 3.1.1 section 3.1) ----
+
+//@ spec
+//@ // connect flags, bit by bit (3.1.2.3 - 3.1.2.9)
+//@ func specConnectFlags(p *pktConnect) byte {
+//@ 	will := ite(p.Will != nil, 0x04+int(p.Will.QoS)*8+ite(p.Will.Retain, 0x20, 0), 0)
+//@ 	return byte(ite(p.CleanSession, 0x02, 0) + will + ite(p.Password != "", 0x40, 0) + ite(p.UserName != "", 0x80, 0))
+//@ }
+//@
+//@ // payload: client id, then will topic and will message, user name, password - each iff its flag is set (3.1.3)
+//@ func specConnectPayload(p *pktConnect) seq {
+//@ 	s1 := specStr(p.ClientID)
+//@ 	s2 := ite(p.Will != nil, cat3(s1, specStr(p.Will.Topic), specBytes(p.Will.Payload)), s1)
+//@ 	s3 := ite(p.UserName != "", cat(s2, specStr(p.UserName)), s2)
+//@ 	return ite(p.Password != "", cat(s3, specStr(p.Password)), s3)
+//@ }
+//@
+//@ func specProtocolName() seq { return cat3(cat(b1(0), b1(4)), cat(b1('M'), b1('Q')), cat(b1('T'), b1('T'))) }
+//@
+//@ func specConnect(p *pktConnect) seq {
+//@ 	return specFixed(0x10, cat4(specProtocolName(), cat(b1(byte(p.ProtocolLevel)), b1(specConnectFlags(p))), u16be(p.KeepAlive), specConnectPayload(p)))
+//@ }
+//@
+//@ // caller obligations for CONNECT fields
+//@ func connectable(p *pktConnect) bool {
+//@ 	return len(p.ClientID) <= 0xFFFF && len(p.UserName) <= 0xFFFF && len(p.Password) <= 0xFFFF &&
+//@ 		(p.Will == nil || (p.Will.QoS <= QoS2 && len(p.Will.Topic) <= 0xFFFF && len(p.Will.Payload) <= 0xFFFF))
+//@ }
+//@ end
+
+//@ func (*pktConnect).Pack
+//@   mode int
+//@   props C05 C09
+//@   pure
+//@   freshresult
+//@   requires p != nil && connectable(p)
+//@   ensures[C05,C09] seqEq(seqOf(result), specConnect(p))
